@@ -103,7 +103,7 @@ func (c *pipelineConn) readLoop() {
 			r, _, err = dnsutils.ReadMsgFromTCP(br)
 		} else {
 			var n int
-			r, n, err = dnsutils.ReadMsgFromUDP(c.c, 4096) // TODO: make udp read buf size configurable?
+			r, n, err = dnsutils.ReadMsgFromUDP(c.c, 65535) // A reply can be as large as a udp datagram.
 			if err != nil {
 				if isUdpMsgSizeErr(err) { // windows.WSAEMSGSIZE
 					c.t.logger.Warn().
